@@ -22,11 +22,11 @@ type c01Unexported struct {
 	Ptr    *c01Unexported
 }
 
-func (c c01Unexported) Hello(n int) string        { return fmt.Sprint("hi", n) }
-func (c *c01Unexported) PtrMethod() string        { return "pm" }
-func (c c01Unexported) Fail() (string, error)     { return "", fmt.Errorf("nope") }
-func (c c01Unexported) Var(xs ...int) int         { return len(xs) }
-func (c c01Unexported) NilValue() *pongo2.Value   { return nil }
+func (c c01Unexported) Hello(n int) string         { return fmt.Sprint("hi", n) }
+func (c *c01Unexported) PtrMethod() string         { return "pm" }
+func (c c01Unexported) Fail() (string, error)      { return "", fmt.Errorf("nope") }
+func (c c01Unexported) Var(xs ...int) int          { return len(xs) }
+func (c c01Unexported) NilValue() *pongo2.Value    { return nil }
 func (c c01Unexported) ValArg(v *pongo2.Value) int { return v.Len() }
 
 type c01Stringer struct{ v string }
